@@ -223,6 +223,8 @@ fn check_lexer_level(ctx: &Ctx, s: &str, st: &mut Stats) {
         let map: std::collections::HashMap<&str, u32> = grm.tokens_map().into_iter().map(|(k, v)| (k, v.as_storaget())).collect();
         ld.set_rule_ids(&map);
         let lexer = ld.lexer(s);
+        let mut cache_whole = cfgrammar::newlinecache::NewlineCache::new();
+        cache_whole.feed(s);
         // line_col / span_lines_str on every span
         let b = boundaries(s);
         for (i, &a) in b.iter().enumerate() {
@@ -234,6 +236,17 @@ fn check_lexer_level(ctx: &Ctx, s: &str, st: &mut Stats) {
                         let ok = l1 == ref_line(s, a) && ref_cols(s, a).contains(&c1) && l2 == ref_line(s, e) && ref_cols(s, e).contains(&c2);
                         if !ok {
                             ctx.violation("c19-line_col", &format!("line_col(({}, {})) of \"{}\" = {:?}", a, e, esc(s), ((l1, c1), (l2, c2))), case());
+                        }
+                        // whichever way "a CR LF pair counts once" is read at the LF itself, the
+                        // two public routes to a position must read it the same way: line_col of
+                        // a span is the cache's answer for its two ends
+                        let direct = (cache_whole.byte_to_line_num_and_col_num(s, a), cache_whole.byte_to_line_num_and_col_num(s, e));
+                        if direct != (Some((l1, c1)), Some((l2, c2))) {
+                            ctx.violation(
+                                "c19-line_col-vs-cache",
+                                &format!("line_col(({}, {})) of \"{}\" = {:?} but NewlineCache::byte_to_line_num_and_col_num gives {:?} for the same two offsets", a, e, esc(s), ((l1, c1), (l2, c2)), direct),
+                                case(),
+                            );
                         }
                         if !ref_extents(s, a, e).iter().any(|(x, y)| &s[*x..*y] == text) {
                             ctx.violation("c19-span_lines_str", &format!("span_lines_str(({}, {})) of \"{}\" = \"{}\"", a, e, esc(s), esc(&text)), case());
